@@ -56,8 +56,8 @@ CURATED = {
     "mixture": { "_MixtureParts.__iter__": ("C08",), "MixtureKernel.release": ("C11",), "MixtureModel.release": ("C11",),
         MODULE_BODY: ("C08",),
         "make_mixture_info": ("C08",), "MixtureModel.__init__": ("C08",), "MixtureModel.make_kernel": ("C08",), "_intermediates": ("C08",),
-        "MixtureKernel.__init__": ("C08",), "MixtureKernel.Iq": ("C06", "C08", "C11", "C19",), "_MixtureParts.__init__": ("C06", "C08",), "_MixtureParts.__next__": ("C06", "C08",),
-        "_MixtureParts._part_details": ("C06", "C08",), "_MixtureParts._part_values": ("C06", "C08", "C19",),
+        "MixtureKernel.__init__": ("C08",), "MixtureKernel.Iq": ("C06", "C08", "C11", "C19",), "_MixtureParts.__init__": ("C06", "C08", "C19",), "_MixtureParts.__next__": ("C06", "C08", "C19",),
+        "_MixtureParts._part_details": ("C06", "C08", "C19",), "_MixtureParts._part_values": ("C06", "C08", "C19",),
     },
     "direct_model": { "DataMixin._set_data": ("C10",), "DirectModel.simulate_data": ("C10",),
         MODULE_BODY: ("C10",),
@@ -100,14 +100,14 @@ CURATED = {
     "generate": { "_kernels": ("C01", "C09", "C17",), "_search": ("C17",), "load_kernel_module": ("C17",), "read_text": ("C17",), "get_data_path": ("C17",), "_clean_source_filename": ("C17",),
         MODULE_BODY: ("C15", "C17"),
         "tag_source": ("C17", "C18"), "set_integration_size": ("C17", "C18"), "convert_type": ("C15",), "_convert_type": ("C15",), "_fix_tgmath_int": ("C15",), "_tag_float": ("C15",),
-        "_split_translation": ("C16",), "_build_translation": ("C16",), "_build_translation_vars": ("C16",), "_build_validity_check": ("C16",),
+        "_split_translation": ("C16",), "_build_translation": ("C06", "C16",), "_build_translation_vars": ("C06", "C16",), "_build_validity_check": ("C16",),
         "find_xy_mode": ("C09",), "contains_Fq": ("C09", "C14"), "contains_shell_volume": ("C09",), "_gen_fn": ("C09",), "_call_pars": ("C09", "C16"),
-        "make_source": ("C09", "C16", "C17"), "load_template": ("C17",), "model_sources": ("C17",), "_add_source": ("C17",), "kernel_name": ("C17",),
+        "make_source": ("C09", "C16", "C17"), "load_template": ("C17",), "model_sources": ("C17",), "_add_source": ("C17",), "kernel_name": ("C17", "C18",),
     },
     "modelinfo": { "Parameter.__init__": ("C09", "C20",), "Parameter.as_definition": ("C09", "C16",), "Parameter.as_function_argument": ("C09", "C16",), "ParameterTable._get_ref": ("C01", "C09",), "ParameterTable.user_parameters": ("C10",), "ParameterTable.set_zero_background": ("C07", "C08",), "expand_pars": ("C09", "C10",), "prefix_parameter": ("C08",), "suffix_parameter": ("C07", "C08",), "ModelInfo.get_hidden_parameters": ("C10",), "ParameterTable.__getitem__": ("C09",), "ParameterTable.__contains__": ("C09",),
         "make_parameter_table": ("C09", "C16", "C20",), "parse_parameter": ("C09", "C16", "C20",), "ParameterTable.__init__": ("C01", "C02", "C05", "C06", "C07", "C08", "C09", "C10", "C16", "C20",), "ParameterTable.check_angles": ("C05", "C09",),
         "ParameterTable.check_duplicates": ("C09",), "ParameterTable._set_vector_lengths": ("C01", "C07", "C08", "C09", "C20",), "ParameterTable._get_call_parameters": ("C01", "C06", "C07", "C08", "C09", "C16", "C20",),
-        "ParameterTable._get_defaults": ("C06", "C07", "C08", "C09", "C10",), "make_model_info": ("C09", "C15", "C16", "C20",), "derive_table": ("C16",), "_insert_after": ("C16",), "_simple_insert": ("C16",),
+        "ParameterTable._get_defaults": ("C06", "C07", "C08", "C09", "C10",), "make_model_info": ("C09", "C15", "C16", "C17", "C20",), "derive_table": ("C16",), "_insert_after": ("C16",), "_simple_insert": ("C16",),
     },
     "convert": {
         MODULE_BODY: ("C20",),
@@ -327,7 +327,46 @@ def differences(fn, ref_fn, inline=None):
         diffs.append(("order of calls", "%s BEFORE %s" % bad_order, "%s BEFORE %s" % (bad_order[1], bad_order[0])))
     # calls without side effects (numpy / math / builtins / read-only methods) are not compared: their results reach the
     # compared values when they are used, and an unused one is dead code
+    # object sharing: one freshly computed array bound to several names that each leave the function (constructor argument,
+    # attribute, return) makes an in-place update of one visible through the other; values cannot show it
+    ga, gb = _shared_groups(fn), _shared_groups(ref_fn)
+    if len(ga) > len(gb):
+        known = {g[1] for g in gb}
+        for names, text in ga:
+            if text not in known:
+                diffs.append(("object sharing (one computed array bound to several escaping names)", "%s = %s" % (" = ".join(names), text), None))
     return diffs
+
+
+def _shared_groups(fn):
+    """[(names, value text)] for chained assignments of a computed (call-containing, non-constant) value to two or more
+    names, each of which is later passed to a call, stored in an attribute / container or returned."""
+    out = []
+    for st in ast.walk(fn):
+        if not (isinstance(st, ast.Assign) and len(st.targets) >= 2 and all(isinstance(t, ast.Name) for t in st.targets)):
+            continue
+        v = st.value
+        fresh = any(isinstance(x, (ast.Call, ast.List, ast.Dict, ast.Set, ast.ListComp, ast.DictComp, ast.SetComp)) for x in ast.walk(v))
+        if not fresh or all(isinstance(a, ast.Constant) for x in ast.walk(v) if isinstance(x, ast.Call) for a in x.args) and \
+                not any(isinstance(x, (ast.List, ast.Dict, ast.Set, ast.ListComp, ast.DictComp, ast.SetComp)) for x in ast.walk(v)):
+            continue
+        names = [t.id for t in st.targets]
+        escaping = set()
+        for x in ast.walk(fn):
+            if isinstance(x, ast.Call):
+                for a in list(x.args) + [k.value for k in x.keywords]:
+                    if isinstance(a, ast.Name) and a.id in names and getattr(a, "lineno", 0) > st.lineno:
+                        escaping.add(a.id)
+            elif isinstance(x, ast.Assign) and x is not st and isinstance(x.value, ast.Name) and x.value.id in names and \
+                    any(isinstance(t, (ast.Attribute, ast.Subscript)) for t in x.targets):
+                escaping.add(x.value.id)
+            elif isinstance(x, ast.Return) and x.value is not None:
+                for y in ast.walk(x.value):
+                    if isinstance(y, ast.Name) and y.id in names:
+                        escaping.add(y.id)
+        if len(escaping) >= 2:
+            out.append((names, ast.unparse(v)))
+    return out
 
 
 def new_helpers(mod, qual, known):
